@@ -366,6 +366,17 @@ Theorem C11_reap_expired_refuted :
 Proof. exact reap_expired_refuted. Qed.
 Print Assumptions C11_reap_expired_refuted.
 
+(* a command's answer is computed for ITS connection: handing the stranger the result computed for the party's command of the
+   same type and (sender-chosen) CommandId — a seeded breaking change that coalesces in-flight duplex commands across
+   connections — is refuted *)
+Theorem C11_coalesced_result_refuted :
+  let rA := exec current_table w_demo (KConn 1) 0 (c_demo 75 (Some 0) None) in
+  let rB := exec current_table w_demo (KConn 3) 0 (c_demo 75 (Some 0) None) in
+  res_dm rA = [0] /\ res_dm rB = [] /\ res_ok rB = false
+  /\ ~ (forall i, In i (res_dm rA) -> exists m, In m (w_maps w_demo) /\ m_id m = i /\ partyP 3 m).
+Proof. exact coalesced_result_refuted. Qed.
+Print Assumptions C11_coalesced_result_refuted.
+
 (* the three properties hold for ANY dispatch table whose rows carry the columns their effect class requires
    (row_sound: identity from the connection, auth gate, party relation) — the table is data, the check is boolean *)
 Theorem C11_any_sound_table :
